@@ -398,36 +398,62 @@ pub open spec fn wf_names_nav(defs: Map<Seq<char>, Seq<DefV>>) -> bool {
     forall|n: Seq<char>, i: int| defs.contains_key(n) && 0 <= i < defs[n].len() ==> (#[trigger] defs[n][i]).name == n
 }
 //@tags C05 C04
-/// call-hierarchy incoming (and outgoing) calls re-identify the definition from the prepared item by
-/// (name, file of the URI) only.  They work for the definition D that preparation selected IF: the URI round-trips
-/// to D's file, and D is the FIRST definition registered under its name in that file.  Both hypotheses are
-/// needed: see canary_incoming_identifies_prepared_definition and the proved counterexample below.
+/// C05 / C04 (positive since the repair of F-05c) — call-hierarchy incoming (and outgoing) calls work for THE definition D
+/// that preparation selected: the prepared item carries D's name, D's URI and a selection range on D's line, and the
+/// re-identification takes the definition of that name in that file ON that line.  No "first of its name in its file"
+/// hypothesis any more.  What is needed, explicitly: the URI round-trips to D's file; D is registered under its name;
+/// W4 (unique_at_line: no OTHER definition at D's (file, line)); 1 <= D.line <= 2^32 (the line survives line-1 / +1).
 pub proof fn lemma_C05_incoming_identifies_prepared_definition(v: NavV, d: DefV, i: int, u: Uri)
     requires
         path_uri(v.uc, d.file) == Some(u), uri_path(u) == Some(d.file),               // URI round trip
         0 <= i < bucket(v.defs, d.name).len(), bucket(v.defs, d.name)[i] == d,         // D is registered under its name
-        forall|j: int| 0 <= j < i ==> (#[trigger] bucket(v.defs, d.name)[j]).file != d.file,   // first of that name in its file
+        unique_at_line(v.defs), 1 <= d.line, line_fits(d.line),
     ensures
-        item_def(v, def_item(u, d).name, def_item(u, d).uri) == Some(d),
-        op_handle_incoming(v, d.name, u) == Some(in_calls(v, op_refs(v.defs, v.byfix, v.provf, d), Some(d))),
+        item_def(v, def_item(u, d).name, def_item(u, d).uri, def_item(u, d).selection_range.start.line) == Some(d),
+        op_handle_incoming(v, d.name, u, lsp_line(d.line)) == Some(in_calls(v, op_refs(v.defs, v.byfix, v.provf, d), Some(d))),
 {
-    lemma_first_idx(bucket(v.defs, d.name), p_same(d.file, fs_true()), i);
+    let ds = bucket(v.defs, d.name);
+    let pl = p_def_line(d.file, lsp_line(d.line) as int + 1);
+    assert(pl(ds[i]));
+    lemma_first_match_some(ds, pl, i);
+    let e = first_match(ds, pl)->0;
+    lemma_first_match_in(ds, pl);
+    let k = choose|k: int| 0 <= k < ds.len() && ds[k] == e;
+    assert(at_line(v.defs, d.file, d.line, ds[k])) by { assert(v.defs.contains_key(d.name) && v.defs[d.name][k] == ds[k]); }
+    assert(at_line(v.defs, d.file, d.line, ds[i])) by { assert(v.defs.contains_key(d.name) && v.defs[d.name][i] == ds[i]); }
+}
+pub proof fn lemma_first_match_some(ds: Seq<DefV>, p: spec_fn(DefV) -> bool, i: int)
+    requires 0 <= i < ds.len(), p(ds[i])
+    ensures first_match(ds, p) is Some
+    decreases ds.len()
+{
+    if !p(ds[0]) { assert(ds.drop_first()[i - 1] == ds[i]); lemma_first_match_some(ds.drop_first(), p, i - 1); }
 }
 //@tags C05
-/// FINDING (proved): a file that defines a fixture name twice (redefinition in the same file).  Go-to-definition /
-/// prepareCallHierarchy select the LATER definition d2 (best_same: last of maximal line); incomingCalls on the
-/// prepared item then works for the EARLIER d1 (first registered in the file) — not "one and the same definition".
-pub proof fn lemma_C05_FINDING_incoming_picks_first_in_file(v: NavV, d1: DefV, d2: DefV, u: Uri)
+/// the case of the former finding F-05c, now positive: a file that defines a fixture name twice (d1 before d2, on
+/// different lines): the item prepared for the LATER definition d2 is re-identified as d2, not as the first in the file
+pub proof fn lemma_C05_redefinition_in_file_is_identified_by_line(v: NavV, d1: DefV, d2: DefV, u: Uri)
     requires
-        bucket(v.defs, d2.name) == seq![d1, d2], d1.file == d2.file, d1.name == d2.name, d1 != d2,
+        bucket(v.defs, d2.name) == seq![d1, d2], d1.file == d2.file, d1.name == d2.name, d1.line != d2.line,
+        1 <= d2.line, line_fits(d2.line),
         path_uri(v.uc, d2.file) == Some(u), uri_path(u) == Some(d2.file),
     ensures
-        item_def(v, def_item(u, d2).name, def_item(u, d2).uri) == Some(d1),
-        item_def(v, def_item(u, d2).name, def_item(u, d2).uri) != Some(d2),
+        item_def(v, def_item(u, d2).name, def_item(u, d2).uri, def_item(u, d2).selection_range.start.line) == Some(d2),
 {
     let ds = seq![d1, d2];
-    assert(ds[0] == d1);
-    lemma_first_idx(ds, p_same(d2.file, fs_true()), 0);
+    assert(ds[0] == d1 && ds[1] == d2);
+    lemma_first_idx(ds, p_def_line(d2.file, lsp_line(d2.line) as int + 1), 1);
+}
+//@tags C05
+/// what is STILL not identification: an item whose selection-range line matches no definition of that name in the
+/// file (a stale item: the file was edited between prepare and the calls request) FALLS BACK to the first definition
+/// of the name in the file — the calls of some other definition than the one the item was prepared for
+pub proof fn lemma_C05_stale_item_falls_back_to_first_in_file(v: NavV, name: Seq<char>, u: Uri, sel_line: u32)
+    requires uri_path(u) is Some,
+        forall|j: int| 0 <= j < bucket(v.defs, name).len() ==> !p_def_line(uri_path(u)->0, sel_line as int + 1)(#[trigger] bucket(v.defs, name)[j]),
+    ensures item_def(v, name, u, sel_line) == first_match(bucket(v.defs, name), p_same(uri_path(u)->0, fs_true()))
+{
+    lemma_first_none(bucket(v.defs, name), p_def_line(uri_path(u)->0, sel_line as int + 1));
 }
 
 //@tags C15
@@ -510,22 +536,41 @@ proof fn canary_prepare_range_is_point(u: Uri, d: DefV)
     requires 1 <= d.line, line_fits(d.line), col_fits(d.start_char), col_fits(d.end_char), d.end_char > 0
     ensures def_item(u, d).range == point_range(lsp_line(d.line), 0)
 {}
-/// incoming calls work for the prepared definition without the "first in its file" hypothesis (FALSE: finding)
+/// incoming calls work for the prepared definition without W4 (FALSE: an earlier registration on the same (file, line) wins)
 proof fn canary_incoming_identifies_prepared_definition(v: NavV, d: DefV, i: int, u: Uri)
     requires
         path_uri(v.uc, d.file) == Some(u), uri_path(u) == Some(d.file),
-        0 <= i < bucket(v.defs, d.name).len(), bucket(v.defs, d.name)[i] == d,
-    ensures item_def(v, d.name, u) == Some(d)
+        0 <= i < bucket(v.defs, d.name).len(), bucket(v.defs, d.name)[i] == d, 1 <= d.line, line_fits(d.line),
+    ensures item_def(v, d.name, u, lsp_line(d.line)) == Some(d)
 {}
 /// ... and without the URI round trip
 proof fn canary_incoming_without_uri_round_trip(v: NavV, d: DefV, u: Uri)
-    requires path_uri(v.uc, d.file) == Some(u), bucket(v.defs, d.name) == seq![d],
-    ensures item_def(v, d.name, u) == Some(d)
+    requires path_uri(v.uc, d.file) == Some(u), bucket(v.defs, d.name) == seq![d], 1 <= d.line, line_fits(d.line),
+    ensures item_def(v, d.name, u, lsp_line(d.line)) == Some(d)
+{}
+/// the pre-fix behaviour: the item's line is not consulted (the first definition of the name in the file is taken)
+proof fn canary_item_def_ignores_line(v: NavV, name: Seq<char>, u: Uri, sel_line: u32)
+    requires uri_path(u) is Some
+    ensures item_def(v, name, u, sel_line) == first_match(bucket(v.defs, name), p_same(uri_path(u)->0, fs_true()))
+{}
+/// a stale item (no definition on its line) identifies nothing (FALSE: it falls back to the first in the file)
+proof fn canary_stale_item_identifies_nothing(v: NavV, name: Seq<char>, u: Uri, sel_line: u32)
+    requires uri_path(u) is Some,
+        forall|j: int| 0 <= j < bucket(v.defs, name).len() ==> !p_def_line(uri_path(u)->0, sel_line as int + 1)(#[trigger] bucket(v.defs, name)[j]),
+    ensures item_def(v, name, u, sel_line) is None
+{
+    lemma_first_none(bucket(v.defs, name), p_def_line(uri_path(u)->0, sel_line as int + 1));
+}
+/// the item's line is compared as a protocol line (no +1)
+proof fn canary_item_line_is_lsp_line(v: NavV, d: DefV, u: Uri)
+    requires uri_path(u) == Some(d.file), bucket(v.defs, d.name) == seq![d], 2 <= d.line, line_fits(d.line)
+    ensures first_match(bucket(v.defs, d.name), p_def_line(d.file, lsp_line(d.line) as int)) == Some(d)
 {}
 /// the hypotheses of the FINDING lemmas are satisfiable (these must FAIL)
 proof fn canary_hyp_incoming_first_in_file(v: NavV, d1: DefV, d2: DefV, u: Uri)
     requires
-        bucket(v.defs, d2.name) == seq![d1, d2], d1.file == d2.file, d1.name == d2.name, d1 != d2,
+        bucket(v.defs, d2.name) == seq![d1, d2], d1.file == d2.file, d1.name == d2.name, d1.line != d2.line,
+        1 <= d2.line, line_fits(d2.line),
         path_uri(v.uc, d2.file) == Some(u), uri_path(u) == Some(d2.file),
     ensures false
 {}
